@@ -24,13 +24,21 @@ PARTIAL = [
     "unregAt / defuseAt) and validated against the code item by item in the drop-glue comparison, but not stated as an invariant theorem",
     "F41 (a dropped set_input whose continuation ran after commit panicked; fixed) is outside the model: session calls are atomic "
     "model steps; it is pinned by the harness only (corpus C05-f41-*)",
+    "a read cancelled BY THE EXECUTOR that issued it (select! / timeout / speculative read inside an executor, while the executor carries "
+    "on) is not an event of the model (the model drops whole tasks); what the model states about it is the glue it shares with the drop of "
+    "a task: removing an aborted registration leaves the other registered callees in their relative order and removes nothing else "
+    "(eraseReg_sublist, eraseReg_length, eraseReg_mem_of_ne, cancel_preserves_registration_order). The hook trace does not carry the "
+    "order vector, so for the code this is judged by the oracle only: harness family `spec*` (an executor starts a read of a slow node, "
+    "polls it once - pending -, reads a guard and, only if the guard is non-zero, a node that divides by it, then drops the speculative "
+    "read; the history flips the guard to 0 and back): later queries must return the from-scratch value, must not panic, and a round may "
+    "execute only nodes the from-scratch evaluation of its roots reaches",
     "waiters of a backward-projection entry have no hook (`get_backward_projection_lock_guard`): their wake-up after a cancel is judged by "
     "the oracle (termination of the other callers) only, not by the trace tie",
 ]
 ASSUMPTIONS = [
     "acyclic programs: no strongly connected component is in progress (with `is_in_scc` the engine replaces the panic by the SCC value; C06)",
     "a future is dropped only at an await point; every drop of a task's future drops the whole stack of nested `query_for` frames at once "
-    "(sub-futures dropped by an executor's own `select!` are not modelled)",
+    "(sub-futures dropped by an executor's own `select!` are not events of the model; see PARTIAL: oracle side and the glue theorem)",
     "`tokio::spawn` is available when a guarded future is dropped, and a spawned continuation is eventually scheduled",
     "JoinSet children (transitive-firewall repair, backward projection, unordered repair groups, refresh) are tasks of their own; their "
     "abort by the parent's drop is a later `cancel` of the child",
@@ -61,6 +69,10 @@ RULE = ("one evaluation = one generated history (3-8 keys, inputs / normal / fir
         "key whose computing entry the target owns, for a dependent of such a key, for an owned firewall; they run until parked on the "
         "target's entries, then the target is dropped; every one of them must complete with the from-scratch value), or one executor "
         "panicking (alone, and with such callers parked on the entries of the panicking task); then "
+        "[one case in four is of the family in which an EXECUTOR DROPS ONE OF ITS OWN READS - speculative read of a slow node polled once and "
+        "dropped after a guard read and a guarded read (a division by the guard), guard flipped to 0 and back by the history; for these the "
+        "history without any injected fault is an evaluation of its own, and every judged round also checks that only nodes the "
+        "from-scratch evaluation reaches were executed] "
         "the cut-short op again, the rest of the history, a final all-keys round, shutdown; variants: InMemoryStorageEngine and "
         "DbBacked<in-memory KvDatabase> (write-behind; re-open and query after shutdown); every case in a child process. Oracle: "
         "from-scratch values (failures that the same history shows without the fault are counted separately and not attributed to C05), "
@@ -95,7 +107,7 @@ def _replay_text(path):
 
 
 def _shard(args):
-    ctx, binp, seed, n, idx, cfg = args
+    ctx, binp, seed, n, idx, cfg, shards = args
     out = os.path.join(ctx.work, f"s{idx}")
     os.makedirs(out, exist_ok=True)
     # every run is judged by the oracle; the hook trace of every run (thorough: of every 5th run, to bound the
@@ -104,8 +116,8 @@ def _shard(args):
            "--trace-every", "1" if ctx.quick() else "5"]
     if ctx.replay:
         cmd += ["--replay", _replay_text(ctx.replay)]
-    elif idx != 0:
-        cmd += ["--no-corpus"]
+    else:
+        cmd += ["--corpus-shard", f"{idx}/{shards}"]
     rc, log = vlib.sh(cmd, timeout=3400)
     if rc != 0:
         return {"dir": out, "error": f"harness exit {rc}: {log[-600:]}"}
@@ -133,7 +145,7 @@ def run(ctx, boost=1):
     ctx.notes.append(f"model configuration (f11 f12 f40) = {cfg} (from known_findings.json / known_findings.d/C05.json: fixed => 1)")
     shards = 1 if ctx.replay else ctx.jobs
     n = (3 if ctx.quick() else 18) * boost
-    jobs = [(ctx, binp, ctx.seed * 1000 + i, n, i, cfg) for i in range(shards)]
+    jobs = [(ctx, binp, ctx.seed * 1000 + i, n, i, cfg, shards) for i in range(shards)]
     outs = vlib.shard_map(_shard, jobs, ctx.jobs)
     dist, traces, bad = {}, 0, 0
     for o in outs:
